@@ -77,20 +77,99 @@ def run_cb(sess, spec, K=2, loop_bound=3, timeout_s=1800, max_paths=3000000, sce
         s.phase = 'threads'
         work.append(s)
     final = spec.get('final')
+    deadline = t0 + timeout_s
+    acc = new_acc()
+    nproc = int(os.environ.get('IRSYM_CB_PROCS', '16'))
+    if nproc > 1:
+        # breadth-first until there are enough independent subtrees, then one forked worker per subtree
+        _dfs(eng, spec, scenario, final, work, deadline, first_only, acc, stop_at=int(os.environ.get("IRSYM_CB_SPLIT", "32")) * nproc, bfs=True)
+    if work and not (acc['violations'] and first_only) and nproc > 1:
+        global _CTX
+        _CTX = (eng, spec, scenario, final, work, deadline, first_only)
+        import multiprocessing as mp
+        base_instrs = eng.stats['instrs']
+        pool = mp.get_context('fork').Pool(min(nproc, len(work)))
+        try:
+            for res in pool.imap_unordered(_worker, range(len(work))):
+                merge_acc(acc, res)
+                if acc['violations'] and first_only:
+                    break
+        finally:
+            pool.terminate()
+            pool.join()
+        eng.stats['instrs'] = base_instrs + acc['instrs']
+        work = []
+    else:
+        _dfs(eng, spec, scenario, final, work, deadline, first_only, acc)
     violations = []
-    inconclusive = []
-    covered = set()
-    statuses = {}
-    nob = 0
-    paths = 0
-    max_sw = 0
-    seen_keys = set()
-    sample = None
+    seen = set()
+    for d in acc['violations']:
+        if (d['kind'], d['ident']) in seen:
+            continue
+        seen.add((d['kind'], d['ident']))
+        nd = {int(k): [tuple(x) for x in v] for k, v in d['nondet'].items()}
+        v = conc.ConcViolation(scenario, d['kind'], d['ident'], d['msg'], inputs={'nondet': {str(k): x for k, x in nd.items()}},
+                               thread=d['thread'], where=d['where'], schedule=d['schedule'], spec=spec, nondet=nd)
+        v.trace = d['trace']
+        violations.append(v)
+    covered = acc['covered']
+    missing = [c for c in spec.get('covers', []) if c not in covered] if not violations else []
+    return {'scenario': scenario, 'mode': 'M1c context-bounded (K=%d preemptions)' % K, 'violations': violations,
+            'inconclusive': sorted(set(acc['inconclusive']))[:5], 'paths': acc['paths'], 'statuses': acc['statuses'],
+            'obligations': acc['nob'], 'covered': sorted(covered), 'missing_covers': missing,
+            'instrs': eng.stats['instrs'], 'queries': eng.nqueries + acc['queries'], 'solver_s': eng.solver_time,
+            'explore_s': time.time() - t0, 'threads': nthreads, 'max_context_switches_seen': acc['max_sw'],
+            'sample': acc['sample'], 'engine': eng, 'events': 0, 'worker_processes': nproc}
+
+
+_CTX = None
+
+
+def new_acc():
+    return {'violations': [], 'inconclusive': [], 'covered': set(), 'statuses': {}, 'nob': 0, 'paths': 0, 'max_sw': 0,
+            'sample': None, 'instrs': 0, 'queries': 0}
+
+
+def merge_acc(a, b):
+    a['violations'] += b['violations']
+    a['inconclusive'] += b['inconclusive']
+    a['covered'] |= b['covered']
+    for k, v in b['statuses'].items():
+        a['statuses'][k] = a['statuses'].get(k, 0) + v
+    a['nob'] += b['nob']
+    a['paths'] += b['paths']
+    a['max_sw'] = max(a['max_sw'], b['max_sw'])
+    a['instrs'] += b['instrs']
+    a['queries'] += b['queries']
+    if a['sample'] is None:
+        a['sample'] = b['sample']
+
+
+def _worker(i):
+    eng, spec, scenario, final, work, deadline, first_only = _CTX
+    acc = new_acc()
+    i0 = eng.stats['instrs']
+    q0 = eng.nqueries
+    try:
+        _dfs(eng, spec, scenario, final, [work[i]], deadline, first_only, acc)
+    except Exception as e:     # Unsupported etc.: the parent must hear about it
+        acc['inconclusive'].append('%s: %s' % (type(e).__name__, str(e)[:300]))
+    acc['instrs'] = eng.stats['instrs'] - i0
+    acc['queries'] = eng.nqueries - q0
+    return acc
+
+
+def _dfs(eng, spec, scenario, final, work, deadline, first_only, acc, stop_at=None, bfs=False):
+    """Explore the states in `work` (modified in place). With stop_at: return as soon as that many states are
+    pending (the caller distributes them)."""
     while work:
-        if time.time() - t0 > timeout_s:
-            inconclusive.append('time budget of %ds exhausted after %d schedules' % (timeout_s, paths))
-            break
-        s = work.pop()
+        if stop_at is not None and len(work) >= stop_at:
+            return
+        if time.time() > deadline:
+            acc['inconclusive'].append('time budget exhausted')
+            del work[:]
+            return
+        s = work.pop(0) if bfs else work.pop()
         phase = getattr(s, 'phase', 'threads')
         try:
             site, forks = eng.run(s)
@@ -107,29 +186,24 @@ def run_cb(sess, spec, K=2, loop_bound=3, timeout_s=1800, max_paths=3000000, sce
         if s.status == 'done' and phase == 'threads' and final:
             # every thread has finished: the final function judges the outcome on thread 0
             s.stacks = None
-            fr = ex.Frame(eng.functions[final])
-            s.frames = [fr]
+            s.frames = [ex.Frame(eng.functions[final])]
             s.thread = 0
             s.status = 'running'
             s.phase = 'final'
             s.n_thread_events = len(s.events)
             work.append(s)
             continue
-        paths += 1
-        eng.stats['paths'] += 1
-        statuses[s.status] = statuses.get(s.status, 0) + 1
-        max_sw = max(max_sw, s.cb_switches)
+        acc['paths'] += 1
+        acc['statuses'][s.status] = acc['statuses'].get(s.status, 0) + 1
+        acc['max_sw'] = max(acc['max_sw'], s.cb_switches)
         for c in s.covers:
-            covered.add(c)
-        if paths > max_paths:
-            inconclusive.append('more than %d schedules' % max_paths)
-            break
-        if sample is None and s.status == 'done':
-            sample = {'scenario': scenario, 'one_explored_schedule_thread_ids': schedule_of(eng, s)[:80]}
+            acc['covered'].add(c)
+        if acc['sample'] is None and s.status == 'done':
+            acc['sample'] = {'scenario': scenario, 'one_explored_schedule_thread_ids': schedule_of(eng, s)[:80]}
         for ob in s.oblig:
-            nob += 1
+            acc['nob'] += 1
             if ob.kind == 'bound':
-                inconclusive.append(ob.msg)
+                acc['inconclusive'].append(ob.msg)
                 continue
             extra = None if ob.cond is None else z3.Not(ob.cond)
             sv = eng.solver
@@ -142,22 +216,25 @@ def run_cb(sess, spec, K=2, loop_bound=3, timeout_s=1800, max_paths=3000000, sce
             m = sv.model() if r == z3.sat else None
             sv.pop()
             if r == z3.sat:
-                key = (ob.kind, str(ob.ident))
-                if key in seen_keys:
-                    continue
-                seen_keys.add(key)
-                violations.append(make_violation(eng, spec, scenario, s, ob, m))
+                acc['violations'].append(violation_dict(eng, s, ob, m))
             elif r == z3.unknown:
-                inconclusive.append('solver unknown on obligation %s' % ob.msg)
-        if violations and first_only:
-            break
-    missing = [c for c in spec.get('covers', []) if c not in covered] if not violations else []
-    return {'scenario': scenario, 'mode': 'M1c context-bounded (K=%d preemptions)' % K, 'violations': violations,
-            'inconclusive': inconclusive[:5], 'paths': paths, 'statuses': statuses, 'obligations': nob,
-            'covered': sorted(covered), 'missing_covers': missing, 'instrs': eng.stats['instrs'],
-            'queries': eng.nqueries, 'solver_s': eng.solver_time, 'explore_s': time.time() - t0,
-            'threads': nthreads, 'max_context_switches_seen': max_sw, 'sample': sample, 'engine': eng,
-            'events': 0}
+                acc['inconclusive'].append('solver unknown on obligation %s' % ob.msg)
+        if acc['violations'] and first_only:
+            del work[:]
+            return
+
+
+def violation_dict(eng, s, ob, m):
+    nondet = {}
+    for mk in s.marks:
+        if mk[0] == 'nondet':
+            th = mk[4] if len(mk) > 4 else 0
+            nondet.setdefault(th, []).append((mk[1], m.eval(mk[2], model_completion=True).as_long()))
+    trace = ['t%d %s %s@%#x r=%s w=%s %s' % (e.thread, e.kind, e.ordering or 'na', e.addr or 0, e.rval, e.wval,
+                                              eng.loc(e.ins).split(' <- ')[0]) for e in s.events
+             if e.kind in ('R', 'W', 'U', 'C') and conc.gated(eng, e)]
+    return {'kind': ob.kind, 'ident': str(ob.ident), 'msg': str(ob.msg), 'thread': ob.thread, 'where': eng.loc(ob.ins),
+            'schedule': schedule_of(eng, s), 'nondet': nondet, 'trace': [str(x) for x in trace]}
 
 
 def schedule_of(eng, s):
@@ -165,16 +242,3 @@ def schedule_of(eng, s):
     return [e.thread for e in s.events[:n] if e.thread != 0 and conc.gated(eng, e)]
 
 
-def make_violation(eng, spec, scenario, s, ob, m):
-    nondet = {}
-    for mk in s.marks:
-        if mk[0] == 'nondet':
-            th = mk[4] if len(mk) > 4 else 0
-            nondet.setdefault(th, []).append((mk[1], m.eval(mk[2], model_completion=True).as_long()))
-    sched = schedule_of(eng, s)
-    v = conc.ConcViolation(scenario, ob.kind, ob.ident, ob.msg, inputs={'nondet': {str(k): x for k, x in nondet.items()}},
-                           thread=ob.thread, where=eng.loc(ob.ins), schedule=sched, spec=spec, nondet=nondet)
-    v.trace = ['t%d %s %s@%#x r=%s w=%s %s' % (e.thread, e.kind, e.ordering or 'na', e.addr or 0, e.rval, e.wval,
-                                                  eng.loc(e.ins).split(' <- ')[0]) for e in s.events
-               if e.kind in ('R', 'W', 'U', 'C') and conc.gated(eng, e)]
-    return v
